@@ -7,6 +7,7 @@ static const int64_t TIMER_BASE_MS = 1000, TIMER_MAX_MS = 60000;
 DtlsSim::DtlsSim(const Plan &p) : plan(p) {
     pc = paircfg_from_plan(p);
     pmtu = (int) p.get("pmtu", 1500);
+    speak = (int) p.get("speak", 0);
     for (auto &op : p.ops) {
         if (op.k == "fate") { DgFate f; f.kind = (int) op.b; f.a = op.c; fates[(int) op.a] = f; }
     }
@@ -110,12 +111,14 @@ void DtlsSim::run_until(int64_t t_end, int max_events) {
             if (e.is_replay) { counters["replayed_datagrams_delivered"]++; }
             if (r.delivered.size() > before) { counters["app_datagrams_delivered"] += (int64_t) (r.delivered.size() - before); }
             if (!was_complete && r.is_complete()) { complete_time[rrole] = now; }
+            bool speaks_now = !was_complete && r.is_complete() && (speak & (1 << rrole));
             if (r.wants_send) {
                 flush(rrole);
                 // this node has sent a flight and now awaits the peer: (re)arm its resend timer with the base timeout
                 if (!r.complete) { timer[rrole].timeout = TIMER_BASE_MS; arm_timer(rrole); }
             }
             if (r.complete && complete_time[rrole] < 0) { complete_time[rrole] = now; }
+            if (speaks_now) { counters["probe.speaks_on_completion"]++; schedule_app_send(now, rrole, 21); }
             for (int k = 0; k < 2; k++) { if (ep(k).complete && complete_event[k] < 0) { complete_event[k] = events_run; } }
             break;
         }
